@@ -15,6 +15,10 @@ THEOREMS = [
     "C10.seq_one_live_catch_handler",
     "C10.seq_one_live_inline",
     "C10.seq_output_concat_inline",
+    "C10.seq_output_sorted_inline",
+    "C10.repeat_n_subscribes_n_inline",
+    "C10.retry_at_most_n_inline",
+    "C10.retry_stops_on_completion_inline",
     "C10.seq_next_after_terminal",
     "C10.seq_output_concat",
     "C10.repeat_n_subscribes_n",
@@ -48,8 +52,8 @@ LEVEL_NOTE = ("Model = RxModel/Comb.lean (uniform event rule, disposable plumbin
 "correspondence, which compares effect times. seq_output_concat states output = delivered elements with non-decreasing source ids (the grouping into "
 "per-source blocks is that sortedness). do_while is the concat machine with items = source, then while-loop; its two nested zero-delay hops are compared "
 "collapsed into one. The INLINE hand-over (subscription with an ImmediateScheduler, sources terminating inside subscribe) is the machine seqInlineM "
-"(handler followed by the action it armed); for it seq_one_live_inline and seq_output_concat_inline are proved (the sortedness of the source ids and the "
-"count theorems are not re-proved for the inline machine). For sources that notify inside subscribe the position of their own unsubscribe is compared by time only. "
+"(handler followed by the action it armed); for it seq_one_live_inline, seq_output_concat_inline, seq_output_sorted_inline, repeat_n_subscribes_n_inline, "
+"retry_at_most_n_inline and retry_stops_on_completion_inline are proved (seq_next_after_terminal is specific to the queued hand-over). For sources that notify inside subscribe the position of their own unsubscribe is compared by time only. "
 "Not modelled: futures as sources. Trusted: logging sources/tap, the event-list replay.")
 
 LIST_OPS = ["concat", "ops_concat", "catch", "ops_catch_obs", "oern", "ops_oern", "start_with", "for_in", "catch_handler"]
